@@ -13,7 +13,7 @@
   * `AllWF r`     : whatever the outcome `r` (ok / allocation error / PANIC), the string afterwards is
     `WF`, and `r` is not the undefined-behaviour fault (an out-of-bounds copy, an `unwrap_unchecked`
     on `None`).
-  * `GrowsToText fixed s need r out`: `r` is an allocation error leaving `s` unchanged iff the string
+  * `GrowsToText al s need r out`: `r` is an allocation error leaving `s` unchanged iff the string
     is FIXED and has less than `need` spare bytes; otherwise `r` is `ok` and the string holds `out`
     (a fixed string keeps its capacity).
   All theorems quantify over ALL strings, indices, characters, texts and predicate oracles.
@@ -22,6 +22,8 @@ import BumpProof.Lemmas.StrOps
 import BumpProof.Lemmas.StrRetain
 import BumpProof.Lemmas.StrCstr
 import BumpProof.Lemmas.StrRun
+import BumpProof.Lemmas.StrRefine
+import BumpProof.Lemmas.StrCtor
 
 namespace C09
 open Str
@@ -78,74 +80,74 @@ example : CharPos ['a', 'é'] 1 := ⟨['a'], ['é'], rfl, by decide⟩
 /-! ## push, push_str -/
 
 /-- `push`: refines `cs ++ [ch]`; never panics; a fixed string fails iff `ch` does not fit -/
-theorem push_refines (fixed : Bool) (s : State) (ch : Char) (cs : List Char) (h : Holds s cs) :
-    GrowsToText fixed s ch.utf8Size (push fixed s ch) (cs ++ [ch]) := push_spec fixed s ch cs h
+theorem push_refines (al : Alloc) (s : State) (ch : Char) (cs : List Char) (h : Holds s cs) :
+    GrowsToText al s ch.utf8Size (push al s ch) (cs ++ [ch]) := push_spec al s ch cs h
 
-theorem push_valid (fixed : Bool) (s : State) (ch : Char) (h : WF s) : AllWF (push fixed s ch) := by
+theorem push_valid (al : Alloc) (s : State) (ch : Char) (h : WF s) : AllWF (push al s ch) := by
   obtain ⟨cs, hc⟩ := (wf_iff s).1 h
-  exact (push_spec fixed s ch cs hc).allWF h
+  exact (push_spec al s ch cs hc).allWF h
 
-theorem push_str_refines (fixed : Bool) (s : State) (t cs : List Char) (h : Holds s cs) :
-    GrowsToText fixed s (encode t).length (pushStr fixed s (encode t)) (cs ++ t) := pushStr_spec fixed s t cs h
+theorem push_str_refines (al : Alloc) (s : State) (t cs : List Char) (h : Holds s cs) :
+    GrowsToText al s (encode t).length (pushStr al s (encode t)) (cs ++ t) := pushStr_spec al s t cs h
 
-theorem push_str_valid (fixed : Bool) (s : State) (str : Bytes) (h : WF s) (hv : Valid str) :
-    AllWF (pushStr fixed s str) := by
+theorem push_str_valid (al : Alloc) (s : State) (str : Bytes) (h : WF s) (hv : Valid str) :
+    AllWF (pushStr al s str) := by
   obtain ⟨cs, hc⟩ := (wf_iff s).1 h
   obtain ⟨t, rfl⟩ := hv
-  exact (pushStr_spec fixed s t cs hc).allWF h
+  exact (pushStr_spec al s t cs hc).allWF h
 
 example : Holds (State.ofBytes (encode ['a', 'é']) 8) ['a', 'é'] := holds_ofBytes _ _
-example : push true (State.ofBytes (encode ['a', 'é']) 4) '€' = .err (State.ofBytes (encode ['a', 'é']) 4) := by decide
+example : push .fixed (State.ofBytes (encode ['a', 'é']) 4) '€' = .err (State.ofBytes (encode ['a', 'é']) 4) := by decide
 
 /-! ## insert, insert_str -/
 
 /-- `insert` at a character position: refines `cs1 ++ [ch] ++ cs2` -/
-theorem insert_refines (fixed : Bool) (s : State) (idx : Nat) (ch : Char) (cs1 cs2 : List Char)
+theorem insert_refines (al : Alloc) (s : State) (idx : Nat) (ch : Char) (cs1 cs2 : List Char)
     (h : Holds s (cs1 ++ cs2)) (hi : (encode cs1).length = idx) :
-    GrowsToText fixed s ch.utf8Size (insert fixed s idx ch) (cs1 ++ [ch] ++ cs2) :=
-  insert_spec fixed s idx ch cs1 cs2 h hi
+    GrowsToText al s ch.utf8Size (insert al s idx ch) (cs1 ++ [ch] ++ cs2) :=
+  insert_spec al s idx ch cs1 cs2 h hi
 
 /-- `insert` panics iff the index is out of range or not on a character boundary; the string is unchanged -/
-theorem insert_panics_iff (fixed : Bool) (s : State) (idx : Nat) (ch : Char) (cs : List Char) (h : Holds s cs) :
-    (insert fixed s idx ch).isPanic = true ↔ ¬ CharPos cs idx := by
+theorem insert_panics_iff (al : Alloc) (s : State) (idx : Nat) (ch : Char) (cs : List Char) (h : Holds s cs) :
+    (insert al s idx ch).isPanic = true ↔ ¬ CharPos cs idx := by
   constructor
   · intro hp hc
     obtain ⟨a, b, rfl, hl⟩ := hc
-    have := (insert_spec fixed s idx ch a b h hl).not_panic
+    have := (insert_spec al s idx ch a b h hl).not_panic
     rw [this] at hp; simp at hp
-  · intro hn; rw [insert_panic fixed s idx ch cs h hn]; rfl
+  · intro hn; rw [insert_panic al s idx ch cs h hn]; rfl
 
-theorem insert_valid (fixed : Bool) (s : State) (idx : Nat) (ch : Char) (h : WF s) : AllWF (insert fixed s idx ch) := by
+theorem insert_valid (al : Alloc) (s : State) (idx : Nat) (ch : Char) (h : WF s) : AllWF (insert al s idx ch) := by
   obtain ⟨cs, hc⟩ := (wf_iff s).1 h
   by_cases hp : CharPos cs idx
   · obtain ⟨a, b, rfl, hl⟩ := hp
-    exact (insert_spec fixed s idx ch a b hc hl).allWF h
-  · rw [insert_panic fixed s idx ch cs hc hp]; exact h
+    exact (insert_spec al s idx ch a b hc hl).allWF h
+  · rw [insert_panic al s idx ch cs hc hp]; exact h
 
-theorem insert_str_refines (fixed : Bool) (s : State) (idx : Nat) (t cs1 cs2 : List Char)
+theorem insert_str_refines (al : Alloc) (s : State) (idx : Nat) (t cs1 cs2 : List Char)
     (h : Holds s (cs1 ++ cs2)) (hi : (encode cs1).length = idx) :
-    GrowsToText fixed s (encode t).length (insertStr fixed s idx (encode t)) (cs1 ++ t ++ cs2) :=
-  insertStr_spec fixed s idx t cs1 cs2 h hi
+    GrowsToText al s (encode t).length (insertStr al s idx (encode t)) (cs1 ++ t ++ cs2) :=
+  insertStr_spec al s idx t cs1 cs2 h hi
 
-theorem insert_str_panics_iff (fixed : Bool) (s : State) (idx : Nat) (t cs : List Char) (h : Holds s cs) :
-    (insertStr fixed s idx (encode t)).isPanic = true ↔ ¬ CharPos cs idx := by
+theorem insert_str_panics_iff (al : Alloc) (s : State) (idx : Nat) (t cs : List Char) (h : Holds s cs) :
+    (insertStr al s idx (encode t)).isPanic = true ↔ ¬ CharPos cs idx := by
   constructor
   · intro hp hc
     obtain ⟨a, b, rfl, hl⟩ := hc
-    have := (insertStr_spec fixed s idx t a b h hl).not_panic
+    have := (insertStr_spec al s idx t a b h hl).not_panic
     rw [this] at hp; simp at hp
-  · intro hn; rw [insertStr_panic fixed s idx _ cs h hn]; rfl
+  · intro hn; rw [insertStr_panic al s idx _ cs h hn]; rfl
 
-theorem insert_str_valid (fixed : Bool) (s : State) (idx : Nat) (str : Bytes) (h : WF s) (hv : Valid str) :
-    AllWF (insertStr fixed s idx str) := by
+theorem insert_str_valid (al : Alloc) (s : State) (idx : Nat) (str : Bytes) (h : WF s) (hv : Valid str) :
+    AllWF (insertStr al s idx str) := by
   obtain ⟨cs, hc⟩ := (wf_iff s).1 h
   obtain ⟨t, rfl⟩ := hv
   by_cases hp : CharPos cs idx
   · obtain ⟨a, b, rfl, hl⟩ := hp
-    exact (insertStr_spec fixed s idx t a b hc hl).allWF h
-  · rw [insertStr_panic fixed s idx _ cs hc hp]; exact h
+    exact (insertStr_spec al s idx t a b hc hl).allWF h
+  · rw [insertStr_panic al s idx _ cs hc hp]; exact h
 
-example : insert false (State.ofBytes (encode ['a', 'é'])) 2 'b' = .panic (State.ofBytes (encode ['a', 'é'])) := by decide
+example : insert .exact (State.ofBytes (encode ['a', 'é'])) 2 'b' = .panic (State.ofBytes (encode ['a', 'é'])) := by decide
 
 /-! ## pop, truncate, clear, remove -/
 
@@ -305,38 +307,6 @@ theorem drain_refines (s : State) (sb eb : Bound) (k a b : Nat) (cs1 cs2 cs3 : L
   obtain ⟨s', hd, hh, _⟩ := drain_ok s sb eb k a b cs1 cs2 cs3 h hr ha hb
   exact ⟨s', hd, hh⟩
 
-/-- the panic condition shared by the range operations: the range does not resolve (bound
-    overflow, start > end, end > len) or one of its ends is not on a character boundary -/
-def RangeBad (cs : List Char) (sb eb : Bound) (len : Nat) : Prop :=
-  sliceRange sb eb len = none ∨ ∃ a b, sliceRange sb eb len = some (a, b) ∧ (¬ CharPos cs a ∨ ¬ CharPos cs b)
-
-theorem rangeBad_or_split (cs : List Char) (sb eb : Bound) (len : Nat) :
-    RangeBad cs sb eb len ∨
-    ∃ a b cs1 cs2 cs3, sliceRange sb eb len = some (a, b) ∧ cs = cs1 ++ cs2 ++ cs3 ∧
-      (encode cs1).length = a ∧ (encode (cs1 ++ cs2)).length = b := by
-  cases hr : sliceRange sb eb len with
-  | none => exact Or.inl (Or.inl hr)
-  | some p =>
-    obtain ⟨a, b⟩ := p
-    by_cases ha : CharPos cs a
-    · by_cases hb : CharPos cs b
-      · obtain ⟨c1, c2, c3, he, h1, h2⟩ := charPos_split3 ha hb (sliceRange_some hr).1
-        exact Or.inr ⟨a, b, c1, c2, c3, rfl, he, h1, h2⟩
-      · exact Or.inl (Or.inr ⟨a, b, hr, Or.inr hb⟩)
-    · exact Or.inl (Or.inr ⟨a, b, hr, Or.inl ha⟩)
-
-theorem not_rangeBad_of_split {cs : List Char} {sb eb : Bound} {len a b : Nat} {cs1 cs2 cs3 : List Char}
-    (hr : sliceRange sb eb len = some (a, b)) (he : cs = cs1 ++ cs2 ++ cs3)
-    (ha : (encode cs1).length = a) (hb : (encode (cs1 ++ cs2)).length = b) : ¬ RangeBad cs sb eb len := by
-  rintro (hn | ⟨a', b', hr', hp⟩)
-  · rw [hn] at hr; simp at hr
-  · rw [hr] at hr'
-    simp only [Option.some.injEq, Prod.mk.injEq] at hr'
-    obtain ⟨rfl, rfl⟩ := hr'
-    rcases hp with hp | hp
-    · exact hp ⟨cs1, cs2 ++ cs3, by rw [he, List.append_assoc], ha⟩
-    · exact hp ⟨cs1 ++ cs2, cs3, he, hb⟩
-
 theorem drain_panics_iff (s : State) (sb eb : Bound) (k : Nat) (cs : List Char) (h : Holds s cs) :
     (drain s sb eb k).isPanic = true ↔ RangeBad cs sb eb s.len := by
   rcases rangeBad_or_split cs sb eb s.len with hbad | ⟨a, b, c1, c2, c3, hr, rfl, h1, h2⟩
@@ -354,47 +324,47 @@ theorem drain_valid (s : State) (sb eb : Bound) (k : Nat) (h : WF s) : AllWF (dr
 /-- `replace_range(range, t)` over the characters `cs2`: the string holds `cs1 ++ t ++ cs3`; a
     fixed string fails (unchanged) iff the replacement is longer than the range by more than the
     spare capacity -/
-theorem replace_range_refines (fixed : Bool) (s : State) (sb eb : Bound) (t : List Char) (a b : Nat)
+theorem replace_range_refines (al : Alloc) (s : State) (sb eb : Bound) (t : List Char) (a b : Nat)
     (cs1 cs2 cs3 : List Char) (h : Holds s (cs1 ++ cs2 ++ cs3)) (hr : sliceRange sb eb s.len = some (a, b))
     (ha : (encode cs1).length = a) (hb : (encode (cs1 ++ cs2)).length = b) :
-    GrowsToText fixed s ((encode t).length - (encode cs2).length) (replaceRange fixed s sb eb (encode t))
-      (cs1 ++ t ++ cs3) := replaceRange_ok fixed s sb eb t a b cs1 cs2 cs3 h hr ha hb
+    GrowsToText al s ((encode t).length - (encode cs2).length) (replaceRange al s sb eb (encode t))
+      (cs1 ++ t ++ cs3) := replaceRange_ok al s sb eb t a b cs1 cs2 cs3 h hr ha hb
 
-theorem replace_range_panics_iff (fixed : Bool) (s : State) (sb eb : Bound) (t cs : List Char) (h : Holds s cs) :
-    (replaceRange fixed s sb eb (encode t)).isPanic = true ↔ RangeBad cs sb eb s.len := by
+theorem replace_range_panics_iff (al : Alloc) (s : State) (sb eb : Bound) (t cs : List Char) (h : Holds s cs) :
+    (replaceRange al s sb eb (encode t)).isPanic = true ↔ RangeBad cs sb eb s.len := by
   rcases rangeBad_or_split cs sb eb s.len with hbad | ⟨a, b, c1, c2, c3, hr, rfl, h1, h2⟩
-  · rw [replaceRange_panic fixed s sb eb _ cs h hbad]; simp [Res.isPanic, hbad]
-  · rw [(replaceRange_ok fixed s sb eb t a b c1 c2 c3 h hr h1 h2).not_panic]
+  · rw [replaceRange_panic al s sb eb _ cs h hbad]; simp [Res.isPanic, hbad]
+  · rw [(replaceRange_ok al s sb eb t a b c1 c2 c3 h hr h1 h2).not_panic]
     simp only [Bool.false_eq_true, false_iff]; exact not_rangeBad_of_split hr rfl h1 h2
 
-theorem replace_range_valid (fixed : Bool) (s : State) (sb eb : Bound) (str : Bytes) (h : WF s) (hv : Valid str) :
-    AllWF (replaceRange fixed s sb eb str) := by
+theorem replace_range_valid (al : Alloc) (s : State) (sb eb : Bound) (str : Bytes) (h : WF s) (hv : Valid str) :
+    AllWF (replaceRange al s sb eb str) := by
   obtain ⟨cs, hc⟩ := (wf_iff s).1 h
   obtain ⟨t, rfl⟩ := hv
   rcases rangeBad_or_split cs sb eb s.len with hbad | ⟨a, b, c1, c2, c3, hr, rfl, h1, h2⟩
-  · rw [replaceRange_panic fixed s sb eb _ cs hc hbad]; exact h
-  · exact (replaceRange_ok fixed s sb eb t a b c1 c2 c3 hc hr h1 h2).allWF h
+  · rw [replaceRange_panic al s sb eb _ cs hc hbad]; exact h
+  · exact (replaceRange_ok al s sb eb t a b c1 c2 c3 hc hr h1 h2).allWF h
 
 /-- `extend_from_within(range)` appends a copy of the characters `cs2` -/
-theorem extend_from_within_refines (fixed : Bool) (s : State) (sb eb : Bound) (a b : Nat)
+theorem extend_from_within_refines (al : Alloc) (s : State) (sb eb : Bound) (a b : Nat)
     (cs1 cs2 cs3 : List Char) (h : Holds s (cs1 ++ cs2 ++ cs3)) (hr : sliceRange sb eb s.len = some (a, b))
     (ha : (encode cs1).length = a) (hb : (encode (cs1 ++ cs2)).length = b) :
-    GrowsToText fixed s (encode cs2).length (extendFromWithin fixed s sb eb) (cs1 ++ cs2 ++ cs3 ++ cs2) :=
-  extendFromWithin_ok fixed s sb eb a b cs1 cs2 cs3 h hr ha hb
+    GrowsToText al s (encode cs2).length (extendFromWithin al s sb eb) (cs1 ++ cs2 ++ cs3 ++ cs2) :=
+  extendFromWithin_ok al s sb eb a b cs1 cs2 cs3 h hr ha hb
 
-theorem extend_from_within_panics_iff (fixed : Bool) (s : State) (sb eb : Bound) (cs : List Char) (h : Holds s cs) :
-    (extendFromWithin fixed s sb eb).isPanic = true ↔ RangeBad cs sb eb s.len := by
+theorem extend_from_within_panics_iff (al : Alloc) (s : State) (sb eb : Bound) (cs : List Char) (h : Holds s cs) :
+    (extendFromWithin al s sb eb).isPanic = true ↔ RangeBad cs sb eb s.len := by
   rcases rangeBad_or_split cs sb eb s.len with hbad | ⟨a, b, c1, c2, c3, hr, rfl, h1, h2⟩
-  · rw [extendFromWithin_panic fixed s sb eb cs h hbad]; simp [Res.isPanic, hbad]
-  · rw [(extendFromWithin_ok fixed s sb eb a b c1 c2 c3 h hr h1 h2).not_panic]
+  · rw [extendFromWithin_panic al s sb eb cs h hbad]; simp [Res.isPanic, hbad]
+  · rw [(extendFromWithin_ok al s sb eb a b c1 c2 c3 h hr h1 h2).not_panic]
     simp only [Bool.false_eq_true, false_iff]; exact not_rangeBad_of_split hr rfl h1 h2
 
-theorem extend_from_within_valid (fixed : Bool) (s : State) (sb eb : Bound) (h : WF s) :
-    AllWF (extendFromWithin fixed s sb eb) := by
+theorem extend_from_within_valid (al : Alloc) (s : State) (sb eb : Bound) (h : WF s) :
+    AllWF (extendFromWithin al s sb eb) := by
   obtain ⟨cs, hc⟩ := (wf_iff s).1 h
   rcases rangeBad_or_split cs sb eb s.len with hbad | ⟨a, b, c1, c2, c3, hr, rfl, h1, h2⟩
-  · rw [extendFromWithin_panic fixed s sb eb cs hc hbad]; exact h
-  · exact (extendFromWithin_ok fixed s sb eb a b c1 c2 c3 hc hr h1 h2).allWF h
+  · rw [extendFromWithin_panic al s sb eb cs hc hbad]; exact h
+  · exact (extendFromWithin_ok al s sb eb a b c1 c2 c3 hc hr h1 h2).allWF h
 
 example : RangeBad ['a', 'é'] (.incl 1) (.excl 2) 3 := Or.inr ⟨1, 2, by decide, Or.inr (by
   rw [← Str.isCharBoundary_iff]; decide)⟩
@@ -521,7 +491,7 @@ theorem cstr_one_nul (text : Bytes) : (cstrSpec text).count 0 = 1 ∧ (cstrSpec 
 /-- `into_cstr` of a (growable) string: returns `cstrSpec` of the contents; the boxed string the
     bytes are taken from holds valid UTF-8 (the characters up to the first NUL character + NUL) -/
 theorem into_cstr_refines (s : State) (cs : List Char) (h : Holds s cs) :
-    ∃ s', intoCstr false s = .ok (cstrSpec s.bytes) s' ∧ Holds s' (cstrText cs) ∧ s'.bytes = cstrSpec s.bytes :=
+    ∃ s', intoCstr .exact s = .ok (cstrSpec s.bytes) s' ∧ Holds s' (cstrText cs) ∧ s'.bytes = cstrSpec s.bytes :=
   intoCstr_spec s cs h
 
 /-- `alloc_cstr_fmt`: a literal format string goes through `alloc_cstr_from_str`; otherwise the
@@ -535,31 +505,132 @@ theorem alloc_cstr_fmt_pieces (ps : List (List Char)) :
 example : cstrSpec [0x61, 0x00, 0x62] = [0x61, 0x00] := by decide
 example : allocCstrFromStr (encode ['a', 'é']) = [0x61, 0xC3, 0xA9, 0x00] := by decide
 
-/-! ## histories: valid UTF-8 after EVERY operation of EVERY operation sequence -/
+/-! ## capacity of growable strings: `len ≤ capacity`, promises kept, no reallocation while they suffice -/
+
+/-- `len ≤ capacity` is part of well-formedness (so it holds after every operation of every history, `run_valid`) -/
+theorem len_le_capacity (s : State) (h : WF s) : s.len ≤ s.cap := h.1
+
+/-- `generic_reserve` requests NO growth from the allocator while `additional ≤ capacity - len` -/
+theorem reserve_no_realloc (al : Alloc) (s : State) (n : Nat) (h : n ≤ s.cap - s.len) : reserve al s n = some s :=
+  reserve_no_grow al s n h
+
+/-- `reserve(n)`: contents untouched; afterwards at least `n` spare bytes (the promise); the new
+    capacity is the old one if the room sufficed, else `max(2·cap, len+n, 8)` for a `BumpString`
+    (`generic_grow_amortized`), the arena's grant (≥ that) for a `MutBumpString`; a fixed string fails -/
+theorem reserve_refines (al : Alloc) (s : State) (n : Nat) (cs : List Char) (h : Holds s cs) :
+    if al.isFixed = true ∧ s.cap - s.len < n then reserveOp al s n = .err s
+    else ∃ s', reserveOp al s n = .ok () s' ∧ Holds s' cs ∧ n ≤ s'.cap - s'.len ∧ CapAfter al s n s'.cap :=
+  reserveOp_spec al s n cs h
+
+/-- `reserve_exact(n)`: a growing `BumpString` gets exactly `len + n` -/
+theorem reserve_exact_refines (al : Alloc) (s : State) (n : Nat) (cs : List Char) (h : Holds s cs) :
+    if al.isFixed = true ∧ s.cap - s.len < n then reserveExactOp al s n = .err s
+    else ∃ s', reserveExactOp al s n = .ok () s' ∧ Holds s' cs ∧ n ≤ s'.cap - s'.len ∧
+      (n ≤ s.cap - s.len → s' = s) ∧ (s.cap - s.len < n → al = .exact → s'.cap = s.len + n) :=
+  reserveExactOp_spec al s n cs h
+
+/-- `with_capacity(c)`: empty, capacity ≥ `c` (exactly `c` for `BumpString` / `FixedBumpString`) -/
+theorem with_capacity_promise (al : Alloc) (c : Nat) :
+    Holds (withCapacity al c) [] ∧ c ≤ (withCapacity al c).cap ∧
+      ((∀ g, al ≠ .atLeast g) → (withCapacity al c).cap = c) := withCapacity_spec al c
+
+/-- `from_str_in(text)` holds the text; a `BumpString` gets exactly `len` bytes -/
+theorem from_str_refines (al : Alloc) (cs : List Char) :
+    Holds (fromStr al (encode cs)) cs ∧ ((∀ g, al ≠ .atLeast g) → (fromStr al (encode cs)).cap = (encode cs).length) :=
+  fromStr_spec al cs
+
+/-- every growing operation obeys the same capacity rule (`CapAfter` inside `GrowsToText`): e.g. a
+    `push` into sufficient room leaves the capacity alone, a growing `push` on a `BumpString`
+    yields exactly `max(2·cap, len + size, 8)` -/
+theorem push_capacity (s : State) (ch : Char) (cs : List Char) (h : Holds s cs) :
+    ∃ s', push .exact s ch = .ok () s' ∧
+      s'.cap = if ch.utf8Size ≤ s.cap - s.len then s.cap else amortizedCap s.cap (s.len + ch.utf8Size) := by
+  have hp := push_spec .exact s ch cs h
+  unfold GrowsToText at hp
+  rw [if_neg (by simp [Alloc.isFixed])] at hp
+  obtain ⟨s', hr, _, hca⟩ := hp
+  refine ⟨s', hr, ?_⟩
+  split
+  · rename_i hle; exact hca.1 hle
+  · rename_i hnle; exact hca.2 (by omega)
+
+/-- a run of `push_str`s that fits into the spare room (what `reserve` / `with_capacity` promised)
+    never reallocates: same capacity after all of them (for every allocator kind) -/
+theorem no_realloc_while_promise_suffices (al : Alloc) (ts : List (List Char)) (s : State) (cs : List Char)
+    (h : Holds s cs) (hfit : (ts.map fun t => (encode t).length).sum ≤ s.cap - s.len) :
+    ∃ s', ts.foldl (fun (r : Option State) t => r.bind fun s => (pushStr al s (encode t)).state?) (some s) = some s' ∧
+      Holds s' (cs ++ ts.flatten) ∧ s'.cap = s.cap := pushStr_many_no_realloc al ts s cs h hfit
+
+example : (withCapacity .exact 5).cap = 5 := by decide
+example : ∃ s', push .exact (State.ofBytes (encode ['a']) 1) 'é' = .ok () s' ∧ s'.cap = 8 := ⟨_, rfl, by decide⟩
+
+/-! ## checked constructors -/
+
+/-- `from_utf8` accepts exactly the valid byte strings, and the accepted string IS the input, unchanged -/
+theorem from_utf8_accepts (v s : State) (h : fromUtf8 v = some s) : s = v ∧ Valid s.bytes := fromUtf8_some h
+
+theorem from_utf8_rejects_iff (v : State) : fromUtf8 v = none ↔ ¬ Valid v.bytes := fromUtf8_none_iff v
+
+/-- so a constructed string is well formed -/
+theorem from_utf8_wf (v s : State) (hv : v.len ≤ v.cap) (h : fromUtf8 v = some s) : WF s := by
+  obtain ⟨rfl, hval⟩ := fromUtf8_some h
+  exact ⟨hv, hval⟩
+
+/-- `char::decode_utf16` as modelled inverts the UTF-16 encoding (surrogate pairs included) -/
+theorem decode_utf16_encode (cs : List Char) : decodeUtf16 (encodeUtf16 cs) = cs.map some := decodeUtf16_encode cs
+
+/-- `from_utf16` (and the lossy variant) of well-formed UTF-16 holds exactly the characters -/
+theorem from_utf16_refines (al : Alloc) (hal : al.isFixed = false) (cs : List Char) :
+    ∃ s', fromUtf16 al (encodeUtf16 cs) = some (.ok () s') ∧ Holds s' cs := fromUtf16_encode al hal cs
+
+theorem from_utf16_lossy_refines (al : Alloc) (hal : al.isFixed = false) (cs : List Char) :
+    ∃ s', fromUtf16Lossy al (encodeUtf16 cs) = some (.ok () s') ∧ Holds s' cs := fromUtf16Lossy_encode al hal cs
+
+/-- for ARBITRARY UTF-16 input (lone surrogates included): whatever string `from_utf16` /
+    `from_utf16_lossy` produce is valid UTF-8 -/
+theorem from_utf16_valid (al : Alloc) (v : List UInt16) (r : Res Unit) (h : fromUtf16 al v = some r) : AllWF r :=
+  pushDecoded_wf al _ _ (withCapacity_spec al _).1.wf r h
+
+theorem from_utf16_lossy_valid (al : Alloc) (v : List UInt16) (r : Res Unit) (h : fromUtf16Lossy al v = some r) :
+    AllWF r := pushDecoded_wf al _ _ (withCapacity_spec al _).1.wf r h
+
+example : encodeUtf16 ['a', '😀'] = [0x61, 0xD83D, 0xDE00] := by decide
+example : decodeUtf16 [0xD83D, 0x61] = [none, some 'a'] := by decide
+example : fromUtf8 (State.ofBytes [0x61, 0xC3]) = none := by decide
+
+/-! ## histories -/
 
 /-- one operation (arbitrary arguments, any outcome — also a panic or an allocation error, after
     which the caller keeps using the string) takes a well-formed string to a well-formed string
-    and never reaches undefined behaviour; for fixed and growable strings and both `split_off` orders -/
-theorem step_valid (fixed f : Bool) (s : State) (op : Op) (h : WF s) :
-    ∃ s', step fixed f s op = some s' ∧ WF s' := by
+    and never reaches undefined behaviour; for every allocator kind and both `split_off` orders -/
+theorem step_valid (al : Alloc) (f : Bool) (s : State) (op : Op) (h : WF s) :
+    ∃ s', step al f s op = some s' ∧ WF s' := by
+  have key : ∀ {α : Type} (g : α → Ret State) (r : Res α), AllWF r → ∃ s', (ofRes g r).next = some s' ∧ WF s' := by
+    intro α g r hr
+    cases r with
+    | ok v s => exact ⟨s, rfl, hr⟩
+    | err s => exact ⟨s, rfl, hr⟩
+    | panic s => exact ⟨s, rfl, hr⟩
+    | fault => exact absurd hr (by simp [AllWF])
+  unfold step
   cases op with
-  | push c => exact stateOf_allWF (push_valid fixed s c h)
-  | pushStr t => exact stateOf_allWF (push_str_valid fixed s _ h (valid_encode t))
-  | insert i c => exact stateOf_allWF (insert_valid fixed s i c h)
-  | insertStr i t => exact stateOf_allWF (insert_str_valid fixed s i _ h (valid_encode t))
-  | remove i => exact stateOf_allWF (remove_valid s i h)
-  | pop => exact stateOf_allWF (pop_valid s h)
-  | truncate n => exact stateOf_allWF (truncate_valid s n h)
+  | push c => exact key _ _ (push_valid al s c h)
+  | pushStr t => exact key _ _ (push_str_valid al s _ h (valid_encode t))
+  | insert i c => exact key _ _ (insert_valid al s i c h)
+  | insertStr i t => exact key _ _ (insert_str_valid al s i _ h (valid_encode t))
+  | remove i => exact key _ _ (remove_valid s i h)
+  | pop => exact key _ _ (pop_valid s h)
+  | truncate n => exact key _ _ (truncate_valid s n h)
   | clear =>
     obtain ⟨s', hc, hh⟩ := clear_refines s
-    exact ⟨s', by simp [step, hc, stateOf], hh.wf⟩
-  | retain o => exact stateOf_allWF (retain_valid s o h)
-  | drain sb eb k => exact stateOf_allWF (drain_valid s sb eb k h)
-  | replaceRange sb eb t => exact stateOf_allWF (replace_range_valid fixed s sb eb _ h (valid_encode t))
-  | extendFromWithin sb eb => exact stateOf_allWF (extend_from_within_valid fixed s sb eb h)
+    exact ⟨s', by simp [stepOut, hc, ofRes, Out.next], hh.wf⟩
+  | retain o => exact key _ _ (retain_valid s o h)
+  | drain sb eb k => exact key _ _ (drain_valid s sb eb k h)
+  | replaceRange sb eb t => exact key _ _ (replace_range_valid al s sb eb _ h (valid_encode t))
+  | extendFromWithin sb eb => exact key _ _ (extend_from_within_valid al s sb eb h)
   | splitOff sb eb other =>
     have := splitOff_valid f s sb eb h
-    simp only [step]
+    simp only [stepOut]
     cases hr : splitOff f s sb eb with
     | ok o s' =>
       rw [hr] at this
@@ -569,25 +640,74 @@ theorem step_valid (fixed f : Bool) (s : State) (op : Op) (h : WF s) :
     | err s' => rw [hr] at this; exact ⟨s', rfl, this⟩
     | panic s' => rw [hr] at this; exact ⟨s', rfl, this⟩
     | fault => rw [hr] at this; exact absurd this (by simp)
+  | reserve n =>
+    obtain ⟨cs, hc⟩ := (wf_iff s).1 h
+    have := reserveOp_spec al s n cs hc
+    simp only [stepOut]
+    split at this
+    · rw [this]; exact ⟨s, rfl, h⟩
+    · obtain ⟨s', hr, hh, _⟩ := this; rw [hr]; exact ⟨s', rfl, hh.wf⟩
+  | reserveExact n =>
+    obtain ⟨cs, hc⟩ := (wf_iff s).1 h
+    have := reserveExactOp_spec al s n cs hc
+    simp only [stepOut]
+    split at this
+    · rw [this]; exact ⟨s, rfl, h⟩
+    · obtain ⟨s', hr, hh, _⟩ := this; rw [hr]; exact ⟨s', rfl, hh.wf⟩
 
 /-- **every history**: from a well-formed string, any finite sequence of operations with any
-    arguments (continuing after panics and allocation errors, continuing with either half after
-    `split_off`) never reaches undefined behaviour and ends in a well-formed string — so the
-    contents are valid UTF-8 after every operation of the sequence (apply to every prefix) -/
-theorem run_valid (fixed f : Bool) (s : State) (ops : List Op) (h : WF s) :
-    ∃ s', run fixed f s ops = some s' ∧ WF s' := by
+    arguments and any allocator behaviour (continuing after panics and allocation errors, continuing
+    with either half after `split_off`) never reaches undefined behaviour and ends in a well-formed
+    string — valid UTF-8 and `len ≤ capacity` after every operation of the sequence -/
+theorem run_valid (f : Bool) (s : State) (ops : List (Alloc × Op)) (h : WF s) :
+    ∃ s', run f s ops = some s' ∧ WF s' := by
   induction ops generalizing s with
   | nil => exact ⟨s, rfl, h⟩
-  | cons op ops ih =>
-    obtain ⟨s1, h1, hw⟩ := step_valid fixed f s op h
+  | cons p ops ih =>
+    obtain ⟨al, op⟩ := p
+    obtain ⟨s1, h1, hw⟩ := step_valid al f s op h
     simp only [run, h1]
     exact ih s1 hw
 
 /-- every string a constructor produces from text is well formed -/
 theorem ofBytes_wf (cs : List Char) (cap : Nat) : WF (State.ofBytes (encode cs) cap) := (holds_ofBytes cs cap).wf
 
-example : ∃ s', run true true (State.ofBytes (encode ['a', 'é']) 6)
-    [.insert 2 'x', .push '€', .push '€', .retain [.keep, .panic], .splitOff (.incl 1) .unbounded true] = some s' ∧ WF s' :=
-  run_valid _ _ _ _ (ofBytes_wf _ _)
+example : ∃ s', run true (State.ofBytes (encode ['a', 'é']) 6)
+    [(.fixed, .insert 2 'x'), (.fixed, .push '€'), (.fixed, .push '€'), (.fixed, .retain [.keep, .panic]),
+     (.fixed, .splitOff (.incl 1) .unbounded true)] = some s' ∧ WF s' :=
+  run_valid _ _ _ (ofBytes_wf _ _)
+
+/-! ## histories refine the `List Char` specification -/
+
+/-- ONE operation, any arguments, any allocator kind: the outcome on the byte model and the outcome
+    of the specification `specStep` (what `String` does; byte indices; `split_off` in its range form)
+    are of the same kind — `ok` / allocation error / PANIC, so the model panics exactly when the
+    specification is undefined —, the returned values are equal, and the string afterwards holds the
+    specified characters (also after a panic) -/
+theorem step_refines_spec (al : Alloc) (s : State) (cs : List Char) (op : Op) (h : Holds s cs) :
+    OutRel (specStep al (s.cap - s.len) cs op) (stepOut al true s op) := step_refines al s cs op h
+
+/-- **every history** is simulated in lock step by the specification (the only thing the
+    specification takes from the model is the spare capacity, which only FIXED strings look at) -/
+theorem run_refines (s : State) (cs : List Char) (ops : List (Alloc × Op)) (h : Holds s cs) :
+    Simulates true s cs ops := run_simulates s cs ops h
+
+/-- for growable strings (`BumpString`, `MutBumpString`, any grants) the specification run does not
+    depend on the model at all: the trace of outcomes of the byte model and the trace of
+    `specRun` (pure `List Char`) are related position by position -/
+theorem run_refines_spec_growable (s : State) (cs : List Char) (ops : List (Alloc × Op)) (h : Holds s cs)
+    (hg : ∀ p ∈ ops, p.1.isFixed = false) :
+    TraceRel (specRun cs (ops.map (·.2))) (modelRun true s ops) := run_refines_growable s cs ops h hg
+
+/-- the specification's splitting function is exactly `CharPos` -/
+theorem splitAtByte_iff (cs : List Char) (i : Nat) (a b : List Char) :
+    splitAtByte cs i = some (a, b) ↔ cs = a ++ b ∧ (encode a).length = i := by
+  constructor
+  · exact splitAtByte_some
+  · rintro ⟨rfl, rfl⟩; exact splitAtByte_of a b
+
+example : specStep .exact 0 ['a', 'é', 'b'] (.remove 1) = .ok ['a', 'b'] (.char 'é') := by decide
+example : specStep .exact 0 ['a', 'é', 'b'] (.remove 2) = .panic ['a', 'é', 'b'] := by decide
+example : specStep .fixed 1 ['a'] (.push 'é') = .err ['a'] := by decide
 
 end C09
